@@ -46,9 +46,9 @@ Proof. exact initial_bound. Qed.
 Print Assumptions C16_initial_bound.
 
 (* the premise of abstracting from time in this property's model: the code it models waits, polls and gives up
-   exactly where the model says (primitive codes in Proofs/W_*.v); re-extracted from the source on every run *)
+   with exactly the kinds of primitives the model accounts for (codes in Proofs/W_*.v); re-extracted from the source on every run *)
 Require Import GV.Gen.Consts GV.Proofs.W_runtime GV.Proofs.W_server_main GV.Proofs.W_authority GV.Proofs.W_net GV.Proofs.W_can.
-Theorem C16_time_abstraction : waits_runtime = (@cons Z 10%Z (@cons Z 10%Z (@cons Z 10%Z (@cons Z 10%Z (@cons Z 10%Z (@cons Z 2%Z (@cons Z 10%Z (@nil Z)))))))) /\ waits_server_main = (@nil Z) /\ waits_authority = (@nil Z) /\ waits_net = (@nil Z) /\ waits_can = (@nil Z).
+Theorem C16_time_abstraction : waits_runtime = (@cons Z 2%Z (@cons Z 10%Z (@nil Z))) /\ waits_server_main = (@nil Z) /\ waits_authority = (@nil Z) /\ waits_net = (@nil Z) /\ waits_can = (@nil Z).
 Proof. exact (conj w_runtime (conj w_server_main (conj w_authority (conj w_net w_can)))). Qed.
-Check C16_time_abstraction : waits_runtime = (@cons Z 10%Z (@cons Z 10%Z (@cons Z 10%Z (@cons Z 10%Z (@cons Z 10%Z (@cons Z 2%Z (@cons Z 10%Z (@nil Z)))))))) /\ waits_server_main = (@nil Z) /\ waits_authority = (@nil Z) /\ waits_net = (@nil Z) /\ waits_can = (@nil Z).
+Check C16_time_abstraction : waits_runtime = (@cons Z 2%Z (@cons Z 10%Z (@nil Z))) /\ waits_server_main = (@nil Z) /\ waits_authority = (@nil Z) /\ waits_net = (@nil Z) /\ waits_can = (@nil Z).
 Print Assumptions C16_time_abstraction.
